@@ -107,7 +107,11 @@ func typeKindName(t *rs.Type) string {
 }
 
 func (c08) RunCase(c *fw.Ctx, rng *fw.RNG, batch, i int) {
-	ts := schemagen.Gen(rng, schemagen.Opts{Types: 8 + rng.Intn(7)})
+	ntypes := 8 + rng.Intn(7)
+	if deepCase(c, i) {
+		ntypes = 18 + rng.Intn(10)
+	}
+	ts := schemagen.Gen(rng, schemagen.Opts{Types: ntypes})
 	lib, err := schemagen.ToLibrary(ts)
 	if err != nil {
 		c.Count("library_rejects_generated_type_system", 1)
